@@ -349,6 +349,36 @@ CHECKS["C04"] = dict(
          "finite (zero rotation and log-scale part). Generic Exp/Log/Jinvp evaluation points are decided numerically by C05 "
          "(Jinvp, Jr) and the Mode-R part; group-valued program outputs are not generated (no property-defined Jacobian).")
 
+CHECKS["C01"] = dict(
+    cat="model_checking", ref="DESIGN.md §5 C01",
+    technique="TLA+ spec LieRegimes.tla (regime masks of so3_Exp/so3_Jl/rxso3_Ws and a first-order error model per regime) "
+              "model-checked by TLC over every magnitude cell; trace validation (LieRegimesTrace.tla) of per-cell errors of the "
+              "real Exp measured against the 60-digit matrix exponential; exact points via LieTrace.tla",
+    text="TLC enumerates every cell (4 types x 2 dtypes x theta/sigma decimal exponents -30..1 or zero x side of the eps switch) and "
+         "checks that the code's regime conditions are total and exclusive, continuity of the model across the theta switch, and "
+         "that the error model meets the stated tolerance everywhere except the sim3 band eps < |sigma| << 1 (design-level "
+         "finding). Every cell of the property's quantifier (theta: 0, 1e-30.., eps-/eps/eps+, sqrt(eps)-/+, O(1), pi-1e-k, pi, "
+         "pi+, 2pi-/+, 3pi, 5pi; sigma: 0, +-1e-30, +-eps-/+, .., +-8; |tau| 0..1e4; float32/64; folded into a 2-d batch) is "
+         "instantiated with random directions; the harness measures rotation/scale-block, translation-block and unit-norm "
+         "errors against mpmath expm and TLC judges them against 256 eps / 8 sqrt(eps) / 8 eps and against the model "
+         "(+3 decades); Exp(0) = identity exactly; rotation-free arguments exactly via LieTrace.",
+    note="Trusted: TLC; mpmath expm at 60 digits; the harness' integer error measures (max-norm relative per block). Nothing is "
+         "claimed between the sampled directions of a cell or for |sigma| > 8. Known finding (listed): sim3 translation block in "
+         "the band eps < |sigma| <= ~1e-10 (f64) / ~1e-5 (f32).")
+
+CHECKS["C02"] = dict(
+    cat="model_checking", ref="DESIGN.md §5 C02",
+    technique="TLA+ spec LieRegimes.tla model-checked by TLC; trace validation (LieRegimesTrace.tla: LogClause, LogExpClause) of "
+              "per-cell measurements of the real Log/Exp/Inv relations in 60-digit arithmetic",
+    text="Every group cell (angle 0, 1e-30, 2eps-/+, .., pi-1e-k for k<=15, pi; both quaternion hemispheres; scales e^sigma over "
+         "the sigma classes of C01 up to e^+-8; |t| 0..1e4; 4 types; float32/64) is built from exact unit quaternions; TLC judges "
+         "Exp(Log X) = X per block (256 eps / 8 sqrt(eps)), |rot(Log X)| <= pi(1 + 4 eps), Log(identity) = 0 exactly, and - away "
+         "from pi (angle <= pi - 1e-6) - Log(-q) = Log(q) and Log(Inv X) = -Log X; Log(Exp x) = x for all algebra cells with "
+         "angle below pi; on the Hurwitz units Log(-q) = Log(q) bitwise.",
+    note="Trusted: TLC; mpmath for building cells and measuring; the log-scale slot is judged absolutely (relative to "
+         "max(1,|sigma|)) because s = e^sigma cannot carry |sigma| < eps. Known finding (listed): sim3 translation relations in "
+         "the small-sigma band of C01.")
+
 REASON_TODO = "check not built yet in this session (planned, see DESIGN.md §5); nothing is claimed for it"
 
 
